@@ -405,11 +405,14 @@ func runProd(sc *prodScenario, rng *rand.Rand) *prodResult {
 	}
 	// one constructor value for the whole producer, as an application has it
 	customHashCtor := sarama.NewCustomHashPartitioner(fnv.New32a)
+	customPartCtor := sarama.NewCustomPartitioner(sarama.WithCustomHashFunction(fnv.New32a))
 	mkPart := func(topic string) sarama.Partitioner {
 		var inner sarama.Partitioner
 		switch sc.Partitioner {
 		case "customhash":
 			inner = customHashCtor(topic)
+		case "custompart":
+			inner = customPartCtor(topic)
 		case "hash":
 			inner = sarama.NewHashPartitioner(topic)
 		case "refhash":
